@@ -144,7 +144,7 @@ func cmdCheck(args []string) {
 		seed, _ = strconv.Atoi(s)
 	}
 	t0 := time.Now()
-	timeout := 30000
+	timeout := 60000
 	if *tier == "thorough" {
 		timeout = 120000
 	}
